@@ -26,6 +26,9 @@ class SimFS(FS):
         self.log = []
         self.clobbered = []
         self.writes = 0
+        # fault seam: the next open-for-writing fails like a full disk (set by the simulation)
+        self.fail_next_write = False
+        self.faults = 0
 
     # ---- helpers
     def _parts(self, p):
@@ -81,6 +84,11 @@ class SimFS(FS):
             raise E.FileExpected(path)
         if not self._isdir(self._parent(k)):
             raise E.ResourceNotFound(path)
+        if self.fail_next_write:
+            self.fail_next_write = False
+            self.faults += 1
+            self.log.append(("write-failed", k))
+            raise OSError(28, "No space left on device (injected)", str(path))
         fsys = self
         name = self._name(path)
         prev = self.nodes.get(k)
